@@ -200,6 +200,8 @@ def engine_union(c, t, joins=True):
     # wrapped x HAVING x INNER / OUTER JOIN), 400 / 300 statements per run, random inputs: feature combinations that no hand-written menu lists
     engine_sim(c, "gen", "GenMenu", lines="LinesUnion", maxlines=8, num=4000 if t else 400, modes=("batch", "incr"), minlines=2, tdefs=("plain", "knn", "vdef", "bothnn", "nndef"))
     engine_sim(c, "gen-real", "GenMenu", lines="LinesReal", maxlines=6, num=1500 if t else 150, modes=("batch", "incr"), minlines=2, tdefs=("vreal",))
+    # ... and on 40-64 lines over 40 values x 3 keys: more distinct rows / groups / values per group than small fixed-size shortcuts (8, 16, 32 entries) hold
+    engine_sim(c, "gen-wide", "GenMenu", lines="LinesWide", maxlines=64, num=300 if t else 24, modes=("batch", "incr"), minlines=40)
     if joins:
         engine_sim(c, "gen-join", "GenJoinMenu", lines="LinesJ", maxlines=6, num=2500 if t else 250, modes=("batch", "incr"), minlines=1, tdefs=("plain", "udef", "knn"))
 
@@ -326,6 +328,8 @@ def check_C08(tier):
     # DISTINCT with a LIMIT beyond every size: the memory of seen rows is not sized by the number
     engine_run(c, "limit-huge", "HugeLimitMenu", lines="Lines3", maxlines=3, maxfiles=1, modes=("batch", "incr"), tdefs=("plain",))
     engine_sim(c, "distinct", "DistinctMenu", lines="LinesRich", maxlines=12, num=2000 if t else 150)
+    # more than 16 / 32 distinct rows, each recurring later
+    engine_sim(c, "distinct-wide", "DistinctMenu", lines="LinesWide", maxlines=64, num=400 if t else 40, minlines=40)
     engine_union(c, t)
     c.rule, c.assumptions, c.exhaustive = ENGINE_RULE, ENGINE_ASSUME, True
     return c.finish()
